@@ -848,4 +848,1336 @@ theorem resolveEntries2 : (es : PEntries) → es.fl2 = true → ∀ env, resolve
 end
 
 
+/-! ## Line-level view of the block renderer -/
+
+def fillerLine (n : Nat) : Filler → Line
+  | .blank => ⟨0, []⟩
+  | .comment c => ⟨n, '#' :: c⟩
+
+def fillLines (n : Nat) (fs : List Filler) : List Line := fs.map (fillerLine n)
+
+/-- Lines as text (each followed by a line feed). -/
+def joinRaw (ls : List Line) : Str := ls.flatMap fun l => l.raw ++ ['\n']
+
+theorem joinRaw_append (a b : List Line) : joinRaw (a ++ b) = joinRaw a ++ joinRaw b := by
+  simp [joinRaw, List.flatMap_append]
+
+theorem joinRaw_cons (l : Line) (ls : List Line) : joinRaw (l :: ls) = l.raw ++ '\n' :: joinRaw ls := by
+  simp [joinRaw]
+
+/-- Body lines of a block scalar as `Line`s. -/
+def bsLines (ci : Nat) (body : List Str) : List Line := body.map fun l => mkLine (indentLine ci l)
+
+mutual
+/-- The text after the indicator on its own line, and the lines that follow, of a value. -/
+def PNode.valueR (ctx : Ctx) (e col : Nat) (m : Meta) : PNode → Str × List Line
+  | .null v => ((if v % 5 = 4 then [] else spaces (m.gap + 1) ++ nullText v) ++ trailText m.trail, [])
+  | .bool b v => (spaces (m.gap + 1) ++ boolText b v ++ trailText m.trail, [])
+  | .int i v => (spaces (m.gap + 1) ++ intText i v ++ trailText m.trail, [])
+  | .str s (.literal ch ind ex) =>
+    (spaces (m.gap + 1) ++ ('|' :: ((if ex then natDigits 10 ind else []) ++ chompChar ch)) ++ trailText m.trail,
+      bsLines ((if ctx = .root then 0 else e + 1) + ind - 1) (blockBodyLines false [] ch s))
+  | .str s (.folded ch ind ex folds) =>
+    (spaces (m.gap + 1) ++ ('>' :: ((if ex then natDigits 10 ind else []) ++ chompChar ch)) ++ trailText m.trail,
+      bsLines ((if ctx = .root then 0 else e + 1) + ind - 1) (blockBodyLines true folds ch s))
+  | .str s st => (spaces (m.gap + 1) ++ strFlowText s st ++ trailText m.trail, [])
+  | .alias a _ => (spaces (m.gap + 1) ++ ('*' :: a) ++ trailText m.trail, [])
+  | .anchored a n =>
+    let rf := n.valueR ctx e (col + m.gap + 1 + a.length + 1) { m with gap := 0 }
+    (spaces (m.gap + 1) ++ ('&' :: a) ++ rf.1, rf.2)
+  | .seq true st c items => (spaces (m.gap + 1) ++ (PNode.seq true st c items).flow ++ trailText m.trail, [])
+  | .map true st c entries => (spaces (m.gap + 1) ++ (PNode.map true st c entries).flow ++ trailText m.trail, [])
+  | .seq false st c items =>
+    if c then
+      match items.linesR (col + m.gap + 1) with
+      | [] => (spaces (m.gap + 1), [])
+      | l :: ls => (spaces (m.gap + 1) ++ l.txt, ls)
+    else (trailText m.trail, items.linesR (if ctx = .root then 0 else e + st))
+  | .map false st c entries =>
+    if c then
+      match entries.linesR (col + m.gap + 1) with
+      | [] => (spaces (m.gap + 1), [])
+      | l :: ls => (spaces (m.gap + 1) ++ l.txt, ls)
+    else (trailText m.trail, entries.linesR (if ctx = .root then 0 else e + st))
+def PItems.linesR (n : Nat) : PItems → List Line
+  | .nil => []
+  | .cons m x rest =>
+    fillLines n m.fill ++ ⟨n, '-' :: (x.valueR .seq n (n + 1) m).1⟩ :: ((x.valueR .seq n (n + 1) m).2 ++ rest.linesR n)
+def PEntries.linesR (n : Nat) : PEntries → List Line
+  | .nil => []
+  | .cons m k ks x rest =>
+    fillLines n m.fill ++ ⟨n, keyText k ks ++ ':' :: (x.valueR .map n (n + (keyText k ks).length + 1) m).1⟩
+      :: ((x.valueR .map n (n + (keyText k ks).length + 1) m).2 ++ rest.linesR n)
+end
+
+theorem raw_mkLine (s : Str) : (mkLine s).raw = s := by
+  simp only [Line.raw, mkLine, spaces]
+  induction s with
+  | nil => rfl
+  | cons c t ih =>
+    by_cases h : c = ' '
+    · subst h
+      simp only [List.takeWhile_cons, beq_self_eq_true, if_true, List.length_cons, List.replicate_succ,
+        List.dropWhile_cons, List.cons_append]
+      rw [ih]
+    · simp [List.takeWhile_cons, List.dropWhile_cons, h]
+
+theorem fillText_eq (n : Nat) (fs : List Filler) : fillText n fs = joinRaw (fillLines n fs) := by
+  induction fs with
+  | nil => rfl
+  | cons f fs ih =>
+    simp only [fillText, List.flatMap_cons, fillLines, List.map_cons, joinRaw_cons] at ih ⊢
+    rw [ih]
+    cases f <;> simp [fillerText, fillerLine, Line.raw, spaces]
+
+theorem bs_body_eq (ci : Nat) (body : List Str) :
+    body.flatMap (fun l => indentLine ci l ++ ['\n']) = joinRaw (bsLines ci body) := by
+  simp only [joinRaw, bsLines, List.flatMap_map, raw_mkLine]
+
+
+mutual
+/-- Compact collections are non-empty and their first entry has no filler lines. -/
+def PNode.cwf : PNode → Bool
+  | .seq false _ c items => (!c || (!items.isNil && items.firstFillEmpty)) && items.cwf
+  | .map false _ c es => (!c || (!es.isNil && es.firstFillEmpty)) && es.cwf
+  | .anchored _ n => n.cwf
+  | _ => true
+def PItems.cwf : PItems → Bool
+  | .nil => true
+  | .cons _ x r => x.cwf && r.cwf
+def PEntries.cwf : PEntries → Bool
+  | .nil => true
+  | .cons _ _ _ x r => x.cwf && r.cwf
+end
+
+theorem blockScalarText_eq (folded : Bool) (ch : Chomp) (ind : Nat) (ex : Bool) (folds : List Nat) (pn : Nat) (tr s : Str) :
+    blockScalarText folded ch ind ex folds pn tr s =
+      ((if folded then '>' else '|') :: ((if ex then natDigits 10 ind else []) ++ chompChar ch)) ++ tr ++
+        '\n' :: joinRaw (bsLines (pn + ind - 1) (blockBodyLines folded folds ch s)) := by
+  simp only [blockScalarText, bs_body_eq, List.append_assoc, List.cons_append, List.nil_append, List.singleton_append]
+
+mutual
+theorem value_eq : (x : PNode) → x.cwf = true → ∀ (ctx : Ctx) (e col : Nat) (m : Meta),
+    x.value ctx e col m = (x.valueR ctx e col m).1 ++ '\n' :: joinRaw (x.valueR ctx e col m).2
+  | .null v, _, ctx, e, col, m => by
+    by_cases h : v % 5 = 4 <;> simp [PNode.value, PNode.valueR, h, joinRaw]
+  | .bool b v, _, ctx, e, col, m => by simp [PNode.value, PNode.valueR, joinRaw]
+  | .int i v, _, ctx, e, col, m => by simp [PNode.value, PNode.valueR, joinRaw]
+  | .str s st, _, ctx, e, col, m => by
+    cases st with
+    | literal ch ind ex =>
+      simp only [PNode.value, PNode.valueR, blockScalarText_eq, List.append_assoc, List.cons_append]
+      simp
+    | folded ch ind ex fo =>
+      simp only [PNode.value, PNode.valueR, blockScalarText_eq, List.append_assoc, List.cons_append]
+      simp
+    | plain => simp [PNode.value, PNode.valueR, joinRaw]
+    | single => simp [PNode.value, PNode.valueR, joinRaw]
+    | double sh eu => simp [PNode.value, PNode.valueR, joinRaw]
+  | .alias a t, _, ctx, e, col, m => by simp [PNode.value, PNode.valueR, joinRaw]
+  | .anchored a n, h, ctx, e, col, m => by
+    have hn : n.cwf = true := by simpa [PNode.cwf] using h
+    simp only [PNode.value, PNode.valueR, value_eq n hn, List.append_assoc, List.cons_append]
+  | .seq fl st c items, h, ctx, e, col, m => by
+    cases fl with
+    | true => simp [PNode.value, PNode.valueR, joinRaw]
+    | false =>
+      have hi : items.cwf = true := by simp [PNode.cwf] at h; exact h.2
+      cases c with
+      | false =>
+        simp only [PNode.value, PNode.valueR, Bool.false_eq_true, if_false, items_block_eq items hi true]
+        cases items with
+        | nil => simp [PItems.linesR, joinRaw]
+        | cons m' x' r' =>
+          simp only [PItems.linesR, joinRaw_append, joinRaw_cons, fillText_eq, if_true, Line.raw, List.append_assoc,
+            List.cons_append, List.nil_append]
+      | true =>
+        cases items with
+        | nil => simp [PNode.cwf, PItems.isNil] at h
+        | cons m' x r =>
+          have hf : m'.fill = [] := by
+            simp [PNode.cwf, PItems.isNil, PItems.firstFillEmpty] at h; exact h.1
+          have hb := items_block_eq (.cons m' x r) hi false (col + m.gap + 1)
+          simp only [PNode.value, PNode.valueR, if_true, PItems.linesR, hf, fillLines, List.map_nil, List.nil_append, hb,
+            fillText, List.flatMap_nil, Bool.false_eq_true, if_false, List.append_assoc, List.cons_append]
+  | .map fl st c es, h, ctx, e, col, m => by
+    cases fl with
+    | true => simp [PNode.value, PNode.valueR, joinRaw]
+    | false =>
+      have hi : es.cwf = true := by simp [PNode.cwf] at h; exact h.2
+      cases c with
+      | false =>
+        simp only [PNode.value, PNode.valueR, Bool.false_eq_true, if_false, entries_block_eq es hi true]
+        cases es with
+        | nil => simp [PEntries.linesR, joinRaw]
+        | cons m' k' ks' x' r' =>
+          simp only [PEntries.linesR, joinRaw_append, joinRaw_cons, fillText_eq, if_true, Line.raw, List.append_assoc,
+            List.cons_append, List.nil_append]
+      | true =>
+        cases es with
+        | nil => simp [PNode.cwf, PEntries.isNil] at h
+        | cons m' k ks x r =>
+          have hf : m'.fill = [] := by
+            simp [PNode.cwf, PEntries.isNil, PEntries.firstFillEmpty] at h; exact h.1
+          have hb := entries_block_eq (.cons m' k ks x r) hi false (col + m.gap + 1)
+          simp only [PNode.value, PNode.valueR, if_true, PEntries.linesR, hf, fillLines, List.map_nil, List.nil_append, hb,
+            fillText, List.flatMap_nil, Bool.false_eq_true, if_false, List.append_assoc, List.cons_append]
+/-- Text of the entries of a block sequence in terms of its lines. -/
+theorem items_block_eq : (items : PItems) → items.cwf = true → ∀ (indentFirst : Bool) (n : Nat),
+    items.block indentFirst n =
+      match items with
+      | .nil => []
+      | .cons m x r =>
+        fillText n m.fill ++ ((if indentFirst then spaces n else []) ++
+          '-' :: ((x.valueR .seq n (n + 1) m).1 ++ '\n' :: joinRaw ((x.valueR .seq n (n + 1) m).2 ++ r.linesR n)))
+  | .nil, _, _, _ => by simp [PItems.block]
+  | .cons m x r, h, indentFirst, n => by
+    have hx : x.cwf = true := by simp [PItems.cwf] at h; exact h.1
+    have hr : r.cwf = true := by simp [PItems.cwf] at h; exact h.2
+    have hrest : r.block true n = joinRaw (r.linesR n) := by
+      have := items_block_eq r hr true n
+      rw [this]
+      cases r with
+      | nil => simp [PItems.linesR, joinRaw]
+      | cons m' x' r' =>
+        simp only [PItems.linesR, joinRaw_append, joinRaw_cons, fillText_eq, if_true, Line.raw, List.append_assoc,
+          List.cons_append]
+    simp only [PItems.block, value_eq x hx, hrest, joinRaw_append, List.append_assoc, List.cons_append]
+theorem entries_block_eq : (es : PEntries) → es.cwf = true → ∀ (indentFirst : Bool) (n : Nat),
+    es.block indentFirst n =
+      match es with
+      | .nil => []
+      | .cons m k ks x r =>
+        fillText n m.fill ++ ((if indentFirst then spaces n else []) ++
+          keyText k ks ++ ':' :: ((x.valueR .map n (n + (keyText k ks).length + 1) m).1 ++
+            '\n' :: joinRaw ((x.valueR .map n (n + (keyText k ks).length + 1) m).2 ++ r.linesR n)))
+  | .nil, _, _, _ => by simp [PEntries.block]
+  | .cons m k ks x r, h, indentFirst, n => by
+    have hx : x.cwf = true := by simp [PEntries.cwf] at h; exact h.1
+    have hr : r.cwf = true := by simp [PEntries.cwf] at h; exact h.2
+    have hrest : r.block true n = joinRaw (r.linesR n) := by
+      have := entries_block_eq r hr true n
+      rw [this]
+      cases r with
+      | nil => simp [PEntries.linesR, joinRaw]
+      | cons m' k' ks' x' r' =>
+        simp only [PEntries.linesR, joinRaw_append, joinRaw_cons, fillText_eq, if_true, Line.raw, List.append_assoc,
+          List.cons_append]
+    simp only [PEntries.block, value_eq x hx, hrest, joinRaw_append, List.append_assoc, List.cons_append]
+end
+
+
+/-! ## Lines read back from their text -/
+
+/-- A line in the form `mkLine` produces: content does not start with a space, and no character
+is a line break. -/
+def Line.canon (l : Line) : Prop := l.txt.head? ≠ some ' ' ∧ l.txt.all okc = true
+
+theorem mkLine_raw (l : Line) (h : l.txt.head? ≠ some ' ') : mkLine l.raw = l := by
+  obtain ⟨n, t⟩ := l
+  simp only [Line.raw, mkLine, spaces] at *
+  induction n with
+  | zero =>
+    cases t with
+    | nil => rfl
+    | cons c r =>
+      have hc : c ≠ ' ' := by simpa using h
+      simp [List.takeWhile_cons, List.dropWhile_cons, hc]
+  | succ n ih =>
+    simp only [List.replicate_succ, List.cons_append, List.takeWhile_cons, List.dropWhile_cons, beq_self_eq_true,
+      if_true, List.length_cons]
+    have := ih
+    simp only [Line.mk.injEq] at this ⊢
+    exact ⟨by rw [this.1], this.2⟩
+
+theorem okc_raw (l : Line) (h : l.txt.all okc = true) : l.raw.all okc = true := by
+  simp only [Line.raw, List.all_append, okc_spaces, h, Bool.and_self]
+
+theorem joinRaw_eq_joinLines (ls : List Line) : joinRaw ls = joinLines (ls.map Line.raw) := by
+  simp [joinRaw, joinLines, List.flatMap_map]
+
+theorem linesOf_joinRaw (ls : List Line) (h : ∀ l ∈ ls, l.canon) : linesOf (joinRaw ls) = ls := by
+  rw [joinRaw_eq_joinLines, linesOf_join]
+  · rw [List.map_map]
+    conv => rhs; rw [← List.map_id ls]
+    apply List.map_congr_left
+    intro l hl
+    exact mkLine_raw l (h l hl).1
+  · intro s hs
+    obtain ⟨l, hl, rfl⟩ := List.mem_map.mp hs
+    exact okc_raw l (h l hl).2
+
+theorem nocr_joinRaw (ls : List Line) (h : ∀ l ∈ ls, l.canon) : (joinRaw ls).all (· != '\r') = true := by
+  rw [joinRaw_eq_joinLines]
+  apply nocr_join
+  intro s hs
+  obtain ⟨l, hl, rfl⟩ := List.mem_map.mp hs
+  exact okc_raw l (h l hl).2
+
+/-! ## Layer 2: block presentations -/
+
+mutual
+/-- A value of layer 2 in context `ctx` (`m` = its entry's meta): scalars without block styles, flow
+collections, block collections — nested with steps, compact after `- ` —, no anchors / aliases, no
+filler lines, no trailing comments. -/
+def PNode.bl2 (ctx : Ctx) : PNode → Bool
+  | .seq false st c items =>
+    !items.isNil && items.bl2 &&
+      (if c then ctx == .seq else ctx == .root || 1 ≤ st || (ctx == .map && st == 0))
+  | .map false st c es =>
+    !es.isNil && es.bl2 && (if c then ctx == .seq else ctx == .root || 1 ≤ st)
+  | .seq true st c items => (PNode.seq true st c items).fl2
+  | .map true st c es => (PNode.map true st c es).fl2
+  | .null v => !(ctx == .root && v % 5 == 4)
+  | x => x.sc2 false
+def PItems.bl2 : PItems → Bool
+  | .nil => true
+  | .cons m x r => m.fill.isEmpty && m.trail.isNone && x.bl2 .seq && r.bl2
+def PEntries.bl2 : PEntries → Bool
+  | .nil => true
+  | .cons m k ks x r => m.fill.isEmpty && m.trail.isNone && keyOk false k ks && x.bl2 .map && r.bl2
+end
+
+
+/-- The text of an inline (single-line) layer-2 value: a block-context scalar or a flow collection. -/
+def PNode.isInline2 : PNode → Bool
+  | .seq false _ _ _ => false
+  | .map false _ _ _ => false
+  | _ => true
+
+/-- `valueR` of an inline value without trailing comment. -/
+theorem valueR_inline (x : PNode) (ctx : Ctx) (h : x.bl2 ctx = true) (hi : x.isInline2 = true) (e col : Nat) (m : Meta)
+    (ht : m.trail = none) :
+    x.valueR ctx e col m = ((if x.flow = [] then [] else spaces (m.gap + 1) ++ x.flow), []) := by
+  cases x with
+  | null v =>
+    by_cases h4 : v % 5 = 4
+    · simp [PNode.valueR, PNode.flow, nullText, h4, ht, trailText]
+    · have hne : nullText v ≠ [] := by
+        have := tokOk_nullText v h4; exact this.2.1
+      simp [PNode.valueR, PNode.flow, h4, ht, trailText, hne]
+  | bool b v =>
+    have hne : boolText b v ≠ [] := (tokOk_boolText b v).2.1
+    simp [PNode.valueR, PNode.flow, ht, trailText, hne]
+  | int i v =>
+    have hne : intText i v ≠ [] := (intText_facts i v).1.2.1
+    simp [PNode.valueR, PNode.flow, ht, trailText, hne]
+  | str s st =>
+    cases st with
+    | plain =>
+      have hs : plainSafe false s = true := by simp [PNode.bl2, PNode.sc2] at h; exact h.1
+      have hne : s ≠ [] := by
+        intro e; subst e; simp [plainSafe, plainFirstOk] at hs
+      simp [PNode.valueR, PNode.flow, strFlowText, ht, trailText, hne]
+    | single => simp [PNode.valueR, PNode.flow, strFlowText, sqText, ht, trailText]
+    | double sh eu => simp [PNode.valueR, PNode.flow, strFlowText, dqText, ht, trailText]
+    | literal ch ind ex => simp [PNode.bl2, PNode.sc2] at h
+    | folded ch ind ex fo => simp [PNode.bl2, PNode.sc2] at h
+  | seq fl st c items =>
+    cases fl with
+    | true => simp [PNode.valueR, PNode.flow, ht, trailText]
+    | false => simp [PNode.isInline2] at hi
+  | map fl st c es =>
+    cases fl with
+    | true => simp [PNode.valueR, PNode.flow, ht, trailText]
+    | false => simp [PNode.isInline2] at hi
+  | anchored a n => simp [PNode.bl2, PNode.sc2] at h
+  | alias a t => simp [PNode.bl2, PNode.sc2] at h
+
+
+/-- Shape of the rest of an indicator line: empty, or starting with a space. -/
+def RestShape (r : Str) : Prop := r = [] ∨ r.head? = some ' '
+
+theorem okc_inline2 (x : PNode) (ctx : Ctx) (h : x.bl2 ctx = true) (hi : x.isInline2 = true) : x.flow.all okc = true := by
+  cases x with
+  | seq fl st c items =>
+    cases fl with
+    | true => exact okc_flow2 _ (by simpa [PNode.bl2] using h)
+    | false => simp [PNode.isInline2] at hi
+  | map fl st c es =>
+    cases fl with
+    | true => exact okc_flow2 _ (by simpa [PNode.bl2] using h)
+    | false => simp [PNode.isInline2] at hi
+  | null v => exact (scalarFacts false (.null v) (by simp [PNode.sc2]) (by intros; simp) (by intros; simp)).ok
+  | bool b v => exact (scalarFacts false (.bool b v) (by simp [PNode.sc2]) (by intros; simp) (by intros; simp)).ok
+  | int i v => exact (scalarFacts false (.int i v) (by simp [PNode.sc2]) (by intros; simp) (by intros; simp)).ok
+  | str s st => exact (scalarFacts false (.str s st) (by simpa [PNode.bl2] using h) (by intros; simp) (by intros; simp)).ok
+  | anchored a n => simp [PNode.bl2, PNode.sc2] at h
+  | alias a t => simp [PNode.bl2, PNode.sc2] at h
+
+theorem bl2_firstFill_items (items : PItems) (h : items.bl2 = true) : items.firstFillEmpty = true := by
+  cases items with
+  | nil => rfl
+  | cons m x r => simp [PItems.bl2] at h; simp [PItems.firstFillEmpty, h.1.1.1]
+
+theorem bl2_firstFill_entries (es : PEntries) (h : es.bl2 = true) : es.firstFillEmpty = true := by
+  cases es with
+  | nil => rfl
+  | cons m k ks x r => simp [PEntries.bl2] at h; simp [PEntries.firstFillEmpty, h.1.1.1.1]
+
+mutual
+theorem cwf_of_bl2 : (x : PNode) → ∀ ctx, x.bl2 ctx = true → x.cwf = true
+  | .seq fl st c items, ctx, h => by
+    cases fl with
+    | true => simp [PNode.cwf]
+    | false =>
+      simp only [PNode.bl2, Bool.and_eq_true, Bool.not_eq_true'] at h
+      simp [PNode.cwf, h.1.1, bl2_firstFill_items items h.1.2, cwf_of_bl2_items items h.1.2]
+  | .map fl st c es, ctx, h => by
+    cases fl with
+    | true => simp [PNode.cwf]
+    | false =>
+      simp only [PNode.bl2, Bool.and_eq_true, Bool.not_eq_true'] at h
+      simp [PNode.cwf, h.1.1, bl2_firstFill_entries es h.1.2, cwf_of_bl2_entries es h.1.2]
+  | .null _, _, _ => rfl
+  | .bool _ _, _, _ => rfl
+  | .int _ _, _, _ => rfl
+  | .str _ _, _, _ => rfl
+  | .anchored a n, ctx, h => by simp [PNode.bl2, PNode.sc2] at h
+  | .alias _ _, _, _ => rfl
+theorem cwf_of_bl2_items : (items : PItems) → items.bl2 = true → items.cwf = true
+  | .nil, _ => rfl
+  | .cons m x r, h => by
+    simp only [PItems.bl2, Bool.and_eq_true] at h
+    simp [PItems.cwf, cwf_of_bl2 x .seq h.1.2, cwf_of_bl2_items r h.2]
+theorem cwf_of_bl2_entries : (es : PEntries) → es.bl2 = true → es.cwf = true
+  | .nil, _ => rfl
+  | .cons m k ks x r, h => by
+    simp only [PEntries.bl2, Bool.and_eq_true] at h
+    simp [PEntries.cwf, cwf_of_bl2 x .map h.1.2, cwf_of_bl2_entries r h.2]
+end
+
+mutual
+/-- Rendered lines of layer-2 values are canonical; the rest of the indicator line is empty or starts
+with a space and contains no line break. -/
+theorem canon_value : (x : PNode) → ∀ ctx, x.bl2 ctx = true → ∀ (e col : Nat) (m : Meta), m.trail = none →
+    RestShape (x.valueR ctx e col m).1 ∧ (x.valueR ctx e col m).1.all okc = true ∧ ∀ l ∈ (x.valueR ctx e col m).2, l.canon
+  | .seq fl st c items, ctx, h, e, col, m, ht => by
+    cases fl with
+    | true =>
+      rw [valueR_inline _ ctx h rfl e col m ht]
+      have hne : (PNode.seq true st c items).flow ≠ [] := by simp [PNode.flow]
+      simp only [hne, if_false]
+      refine ⟨Or.inr (by simp [spaces, List.replicate_succ]), ?_, by simp⟩
+      simp only [List.all_append, okc_spaces, okc_inline2 _ ctx h rfl, Bool.and_self]
+    | false =>
+      simp only [PNode.bl2, Bool.and_eq_true, Bool.not_eq_true'] at h
+      have hi := h.1.2
+      cases c with
+      | false =>
+        simp only [PNode.valueR, Bool.false_eq_true, if_false, ht, trailText]
+        exact ⟨Or.inl rfl, rfl, canon_items items hi _⟩
+      | true =>
+        cases items with
+        | nil => simp [PItems.isNil] at h
+        | cons m' x r =>
+          have hc := canon_items (.cons m' x r) hi (col + m.gap + 1)
+          have hf : m'.fill = [] := by simp [PItems.bl2] at hi; exact hi.1.1.1
+          simp only [PNode.valueR, if_true, PItems.linesR, hf, fillLines, List.map_nil, List.nil_append] at hc ⊢
+          have h0 := hc _ (List.mem_cons_self ..)
+          refine ⟨Or.inr (by simp [spaces, List.replicate_succ]), ?_, fun l hl => hc l (List.mem_cons_of_mem _ hl)⟩
+          simp only [List.all_append, okc_spaces, Bool.true_and]
+          exact h0.2
+  | .map fl st c es, ctx, h, e, col, m, ht => by
+    cases fl with
+    | true =>
+      rw [valueR_inline _ ctx h rfl e col m ht]
+      have hne : (PNode.map true st c es).flow ≠ [] := by simp [PNode.flow]
+      simp only [hne, if_false]
+      refine ⟨Or.inr (by simp [spaces, List.replicate_succ]), ?_, by simp⟩
+      simp only [List.all_append, okc_spaces, okc_inline2 _ ctx h rfl, Bool.and_self]
+    | false =>
+      simp only [PNode.bl2, Bool.and_eq_true, Bool.not_eq_true'] at h
+      have hi := h.1.2
+      cases c with
+      | false =>
+        simp only [PNode.valueR, Bool.false_eq_true, if_false, ht, trailText]
+        exact ⟨Or.inl rfl, rfl, canon_entries es hi _⟩
+      | true =>
+        cases es with
+        | nil => simp [PEntries.isNil] at h
+        | cons m' k ks x r =>
+          have hc := canon_entries (.cons m' k ks x r) hi (col + m.gap + 1)
+          have hf : m'.fill = [] := by simp [PEntries.bl2] at hi; exact hi.1.1.1.1
+          simp only [PNode.valueR, if_true, PEntries.linesR, hf, fillLines, List.map_nil, List.nil_append] at hc ⊢
+          have h0 := hc _ (List.mem_cons_self ..)
+          refine ⟨Or.inr (by simp [spaces, List.replicate_succ]), ?_, fun l hl => hc l (List.mem_cons_of_mem _ hl)⟩
+          have h02 := h0.2
+          simp only [List.all_append] at h02 ⊢
+          simp only [okc_spaces, Bool.true_and]
+          exact h02
+  | .null v, ctx, h, e, col, m, ht => by
+    rw [valueR_inline _ ctx h rfl e col m ht]
+    have hok := okc_inline2 _ ctx h rfl
+    split
+    · exact ⟨Or.inl rfl, rfl, by simp⟩
+    · exact ⟨Or.inr (by simp [spaces, List.replicate_succ]), by simp only [List.all_append, okc_spaces, hok, Bool.and_self], by simp⟩
+  | .bool b v, ctx, h, e, col, m, ht => by
+    rw [valueR_inline _ ctx h rfl e col m ht]
+    have hok := okc_inline2 _ ctx h rfl
+    split
+    · exact ⟨Or.inl rfl, rfl, by simp⟩
+    · exact ⟨Or.inr (by simp [spaces, List.replicate_succ]), by simp only [List.all_append, okc_spaces, hok, Bool.and_self], by simp⟩
+  | .int i v, ctx, h, e, col, m, ht => by
+    rw [valueR_inline _ ctx h rfl e col m ht]
+    have hok := okc_inline2 _ ctx h rfl
+    split
+    · exact ⟨Or.inl rfl, rfl, by simp⟩
+    · exact ⟨Or.inr (by simp [spaces, List.replicate_succ]), by simp only [List.all_append, okc_spaces, hok, Bool.and_self], by simp⟩
+  | .str s st, ctx, h, e, col, m, ht => by
+    rw [valueR_inline _ ctx h rfl e col m ht]
+    have hok := okc_inline2 _ ctx h rfl
+    split
+    · exact ⟨Or.inl rfl, rfl, by simp⟩
+    · exact ⟨Or.inr (by simp [spaces, List.replicate_succ]), by simp only [List.all_append, okc_spaces, hok, Bool.and_self], by simp⟩
+  | .anchored a n, ctx, h, _, _, _, _ => by simp [PNode.bl2, PNode.sc2] at h
+  | .alias a t, ctx, h, _, _, _, _ => by simp [PNode.bl2, PNode.sc2] at h
+theorem canon_items : (items : PItems) → items.bl2 = true → ∀ n, ∀ l ∈ items.linesR n, l.canon
+  | .nil, _, _ => by simp [PItems.linesR]
+  | .cons m x r, h, n => by
+    simp only [PItems.bl2, Bool.and_eq_true, List.isEmpty_iff, Option.isNone_iff_eq_none] at h
+    obtain ⟨⟨⟨hf, ht⟩, hx⟩, hr⟩ := h
+    obtain ⟨hs, hok, hl⟩ := canon_value x .seq hx n (n + 1) m ht
+    intro l hm
+    simp only [PItems.linesR, hf, fillLines, List.map_nil, List.nil_append, List.mem_cons, List.mem_append] at hm
+    rcases hm with rfl | hm | hm
+    · exact ⟨by simp, by simp only [List.all_cons, hok, Bool.and_true]; decide⟩
+    · exact hl l hm
+    · exact canon_items r hr n l hm
+theorem canon_entries : (es : PEntries) → es.bl2 = true → ∀ n, ∀ l ∈ es.linesR n, l.canon
+  | .nil, _, _ => by simp [PEntries.linesR]
+  | .cons m k ks x r, h, n => by
+    simp only [PEntries.bl2, Bool.and_eq_true, List.isEmpty_iff, Option.isNone_iff_eq_none] at h
+    obtain ⟨⟨⟨⟨hf, ht⟩, hk⟩, hx⟩, hr⟩ := h
+    obtain ⟨hs, hok, hl⟩ := canon_value x .map hx n (n + (keyText k ks).length + 1) m ht
+    obtain ⟨⟨c0, t0, hk0, g1, _⟩, hkok, _⟩ := keyFacts false k ks hk
+    intro l hm
+    simp only [PEntries.linesR, hf, fillLines, List.map_nil, List.nil_append, List.mem_cons, List.mem_append] at hm
+    rcases hm with rfl | hm | hm
+    · refine ⟨by rw [hk0]; simpa using g1, ?_⟩
+      simp only [List.all_append, hkok, List.all_cons, hok, Bool.and_true, Bool.true_and]; decide
+    · exact hl l hm
+    · exact canon_entries r hr n l hm
+end
+
+
+/-! ## Facts about entry lines -/
+
+theorem skipFill_nonfiller (l : Line) (ls : List Line) (h : l.isFiller = false) : skipFill (l :: ls) = l :: ls := by
+  simp [skipFill, h]
+
+theorem skipFill_idem (ls : List Line) : skipFill (skipFill ls) = skipFill ls := by
+  induction ls with
+  | nil => rfl
+  | cons l ls ih =>
+    by_cases h : l.isFiller = true
+    · simp [skipFill, h, ih]
+    · have h' : l.isFiller = false := by simpa using h
+      simp [skipFill, h']
+
+theorem skipFill_head (ls : List Line) (l : Line) (r : List Line) (h : skipFill ls = l :: r) : l.isFiller = false := by
+  induction ls with
+  | nil => simp [skipFill] at h
+  | cons x xs ih =>
+    by_cases hx : x.isFiller = true
+    · simp [skipFill, hx] at h; exact ih h
+    · have hx' : x.isFiller = false := by simpa using hx
+      simp [skipFill, hx'] at h
+      rw [← h.1]; exact hx'
+
+theorem seqLine_facts (n : Nat) (r1 : Str) (h : RestShape r1) :
+    isDash ('-' :: r1) = true ∧ Line.isFiller ⟨n, '-' :: r1⟩ = false := by
+  rcases h with rfl | h
+  · exact ⟨rfl, rfl⟩
+  · cases r1 with
+    | nil => simp at h
+    | cons c t =>
+      have : c = ' ' := by simpa using h
+      subst this
+      exact ⟨rfl, rfl⟩
+
+theorem keyHead_facts (k : Str) (ks : KStyle) (h : keyOk false k ks = true) :
+    ∃ c t, keyText k ks = c :: t ∧ c ≠ ' ' ∧ c ≠ '#' ∧ c ≠ '\t' ∧ c ≠ '[' ∧ c ≠ '{' ∧ c ≠ '&' ∧ c ≠ '*' ∧ c ≠ '|' ∧ c ≠ '>'
+      ∧ (c = '-' → ∃ d t', t = d :: t' ∧ d ≠ ' ') := by
+  cases ks with
+  | plain =>
+    simp only [keyOk, Bool.and_eq_true] at h
+    have hs := h.1.1
+    simp only [plainSafe, Bool.and_eq_true] at hs
+    have hfirst := hs.1.1.1.1.2
+    have hpr := hs.1.1.1.1.1
+    obtain ⟨c, t, rfl, hc⟩ := plainFirst_head false k hfirst
+    refine ⟨c, t, rfl, hc.1, plainHead_ne c hc '#' (by decide), ?_, plainHead_ne c hc '[' (by decide),
+      plainHead_ne c hc '{' (by decide), plainHead_ne c hc '&' (by decide), plainHead_ne c hc '*' (by decide),
+      plainHead_ne c hc '|' (by decide), plainHead_ne c hc '>' (by decide), ?_⟩
+    · have : isPrintable c = true := by simp only [List.all_cons, Bool.and_eq_true] at hpr; exact hpr.1
+      exact printable_ne_tab c this
+    · intro hd; subst hd
+      simp only [plainFirstOk, beq_self_eq_true, Bool.true_or, if_true] at hfirst
+      cases t with
+      | nil => simp at hfirst
+      | cons d t' =>
+        simp only [Bool.and_eq_true, bne_iff_ne] at hfirst
+        exact ⟨d, t', rfl, hfirst.1⟩
+  | single =>
+    exact ⟨'\'', _, rfl, by decide, by decide, by decide, by decide, by decide, by decide, by decide, by decide, by decide,
+      by intro h; cases h⟩
+  | double sh eu =>
+    exact ⟨'"', _, rfl, by decide, by decide, by decide, by decide, by decide, by decide, by decide, by decide, by decide,
+      by intro h; cases h⟩
+
+theorem keyLine_facts (n : Nat) (k : Str) (ks : KStyle) (h : keyOk false k ks = true) (r1 : Str) (hr : RestShape r1) :
+    splitKey (keyText k ks ++ ':' :: r1) = .ok (some (keyNode k ks, r1))
+      ∧ isDash (keyText k ks ++ ':' :: r1) = false
+      ∧ Line.isFiller ⟨n, keyText k ks ++ ':' :: r1⟩ = false
+      ∧ (keyText k ks ++ ':' :: r1).head? ≠ some '\t' := by
+  obtain ⟨c, t, hkt, h1, h2, h3, h4, h5, h6, h7, h8, h9, h10⟩ := keyHead_facts k ks h
+  have hdash : isDash (keyText k ks ++ ':' :: r1) = false := by
+    rw [hkt]
+    by_cases hc : c = '-'
+    · obtain ⟨d, t', rfl, hd⟩ := h10 hc
+      subst hc
+      simp only [List.cons_append, isDash]
+      split
+      · rename_i heq; simp at heq
+      · rename_i heq; exact absurd (List.cons.inj (List.cons.inj heq).2).1 hd
+      · rfl
+    · simp only [List.cons_append, isDash]
+      split
+      · rename_i heq; exact absurd (List.cons.inj heq).1 hc
+      · rename_i heq; exact absurd (List.cons.inj heq).1 hc
+      · rfl
+  refine ⟨?_, hdash, ?_, ?_⟩
+  · -- splitKey
+    cases ks with
+    | plain =>
+      simp only [keyOk, Bool.and_eq_true] at h
+      have hs := h.1.1
+      have hstop : Stop false (':' :: r1) := by
+        rcases hr with rfl | hr
+        · exact Or.inr (Or.inl rfl)
+        · cases r1 with
+          | nil => simp at hr
+          | cons d r' =>
+            have : d = ' ' := by simpa using hr
+            subst this
+            exact Or.inr (Or.inr (Or.inl ⟨r', rfl⟩))
+      have hp := parsePlain_safe false k (':' :: r1) hs hstop
+      simp only [plainSafe, Bool.and_eq_true, bne_iff_ne, ne_eq, Bool.not_eq_true'] at hs
+      have hlen := plainLen_safe false k (':' :: r1) hs.1.1.2 hs.1.1.1.2 hstop
+      obtain ⟨c', t', hk', hc'⟩ := plainFirst_head false k hs.1.1.1.1.2
+      simp only [keyText]
+      unfold splitKey
+      subst hk'
+      simp only [List.cons_append] at hp hlen ⊢
+      split
+      · rename_i heq; exact absurd (List.cons.inj heq).1 (plainHead_ne c' hc' '"' (by decide))
+      · rename_i heq; exact absurd (List.cons.inj heq).1 (plainHead_ne c' hc' '\'' (by decide))
+      · rename_i heq; exact absurd (List.cons.inj heq).1 (plainHead_ne c' hc' '[' (by decide))
+      · rename_i heq; exact absurd (List.cons.inj heq).1 (plainHead_ne c' hc' '{' (by decide))
+      · rename_i heq; exact absurd (List.cons.inj heq).1 (plainHead_ne c' hc' '&' (by decide))
+      · rename_i heq; exact absurd (List.cons.inj heq).1 (plainHead_ne c' hc' '*' (by decide))
+      · rename_i heq; exact absurd (List.cons.inj heq).1 (plainHead_ne c' hc' '|' (by decide))
+      · rename_i heq; exact absurd (List.cons.inj heq).1 (plainHead_ne c' hc' '>' (by decide))
+      · rename_i heq; exact absurd (List.cons.inj heq).1 (plainHead_ne c' hc' '#' (by decide))
+      · simp only [hlen]
+        have hd : (c' :: (t' ++ ':' :: r1)).drop (c' :: t').length = ':' :: r1 := by
+          have := List.drop_left' (l₁ := c' :: t') (l₂ := ':' :: r1) rfl
+          simpa using this
+        rw [hd]
+        rcases hr with rfl | hr
+        · simp [hp, keyNode, Except.map]
+        · cases r1 with
+          | nil => simp at hr
+          | cons d r' =>
+            have : d = ' ' := by simpa using hr
+            subst this
+            simp [hp, keyNode, Except.map]
+    | single =>
+      simp only [keyOk, Bool.and_eq_true] at h
+      have hq : (':' :: r1).head? ≠ some '\'' := by simp
+      have hp := parseSQ_body k (':' :: r1) h.1 hq
+      simp only [keyText, sqText_eq, List.cons_append, List.append_assoc, List.nil_append, splitKey, hp]
+      rcases hr with rfl | hr
+      · simp [dropSpaces, keyNode]
+      · cases r1 with
+        | nil => simp at hr
+        | cons d r' =>
+          have : d = ' ' := by simpa using hr
+          subst this
+          simp [dropSpaces, keyNode]
+    | double sh eu =>
+      have hp := parseDQ_dqBody sh eu k (':' :: r1)
+      simp only [keyText, dqText, List.cons_append, List.append_assoc, List.nil_append, splitKey, hp]
+      rcases hr with rfl | hr
+      · simp [dropSpaces, keyNode]
+      · cases r1 with
+        | nil => simp at hr
+        | cons d r' =>
+          have : d = ' ' := by simpa using hr
+          subst this
+          simp [dropSpaces, keyNode]
+  · rw [hkt]; simp [Line.isFiller, h2]
+  · rw [hkt]; simpa using h3
+
+
+/-! ## The block parser on rendered lines -/
+
+theorem parseSeq_congr (f n : Nat) (a b : List Line) (acc : List Node) (h : skipFill a = skipFill b) :
+    parseSeq f n a acc = parseSeq f n b acc := by
+  cases f with
+  | zero => simp [parseSeq]
+  | succ f => rw [parseSeq, parseSeq, h]
+
+theorem parseMap_congr (f n : Nat) (a b : List Line) (acc : List (Node × Node)) (h : skipFill a = skipFill b) :
+    parseMap f n a acc = parseMap f n b acc := by
+  cases f with
+  | zero => simp [parseMap]
+  | succ f => rw [parseMap, parseMap, h]
+
+/-- What the line-level parser needs to know about an inline node's text (any head character that
+cannot be mistaken for an indicator of block structure). -/
+structure Inline2 (X : Str) (nd : Node) : Prop where
+  head : ∃ c r, X = c :: r ∧ c ≠ ' ' ∧ c ≠ '\t' ∧ c ≠ '#' ∧ c ≠ '|' ∧ c ≠ '>' ∧ c ≠ '&'
+  dash : isDash X = false
+  key : splitKey X = .ok none
+  inl : parseInline X = .ok nd
+
+theorem parseAfter_inline2 (f g col pn : Nat) (cOk sSame : Bool) (X : Str) (nd : Node) (ls : List Line)
+    (hf : Inline2 X nd) :
+    parseAfter (f + 1) (spaces (g + 1) ++ X) col pn cOk sSame ls = .ok (nd, ls) := by
+  obtain ⟨⟨c, r, rfl, hsp, htab, hhash, hbar, hgt, hamp⟩, hdash, hkey, hinl⟩ := hf
+  have hds : dropSpaces (spaces (g + 1) ++ c :: r) = c :: r := dropSpaces_spaces (g + 1) c r hsp
+  rw [parseAfter]
+  simp only [hds, List.head?_cons, show (some c == some '\t') = false by simp [htab],
+    Bool.false_eq_true, if_false, List.isEmpty_cons, show (some c == some '#') = false by simp [hhash],
+    Bool.false_and, Bool.or_self]
+  split
+  · rename_i heq; exact absurd (List.cons.inj heq).1 hbar
+  · rename_i heq; exact absurd (List.cons.inj heq).1 hgt
+  · rename_i heq; exact absurd (List.cons.inj heq).1 hamp
+  · simp only [hdash, Bool.false_eq_true, if_false, hkey, hinl]
+    rfl
+
+theorem inline2_of_facts (X : Str) (nd : Node) (h : InlineFacts X nd) : Inline2 X nd := by
+  obtain ⟨⟨c, r, rfl, hc⟩, _, hd, hk, hi⟩ := h
+  exact ⟨⟨c, r, rfl, headClass_ne c hc ' ' (by decide), headClass_ne c hc '\t' (by decide), headClass_ne c hc '#' (by decide),
+    headClass_ne c hc '|' (by decide), headClass_ne c hc '>' (by decide), headClass_ne c hc '&' (by decide)⟩, hd, hk, hi⟩
+
+theorem inline_coll2 (n : PNode) (h : n.fl2 = true) (c : Char) (r : Str) (hx : n.flow = c :: r) (hc : c = '[' ∨ c = '{') :
+    Inline2 n.flow n.node := by
+  have hb := need_bound2 n h
+  have hf := flowNode2 n h (4 * n.flow.length + 4) [] 0 (by omega) (Or.inl rfl)
+  simp only [spaces, List.replicate_zero, List.nil_append, List.append_nil] at hf
+  rw [hx] at hf ⊢
+  rcases hc with rfl | rfl
+  · refine ⟨⟨_, _, rfl, by decide, by decide, by decide, by decide, by decide, by decide⟩, by simp [isDash], by simp [splitKey], ?_⟩
+    simp only [parseInline, hf, restOk_nil, if_true]
+  · refine ⟨⟨_, _, rfl, by decide, by decide, by decide, by decide, by decide, by decide⟩, by simp [isDash], by simp [splitKey], ?_⟩
+    simp only [parseInline, hf, restOk_nil, if_true]
+
+theorem inline_plain (s : Str) (hs : plainSafe false s = true) : Inline2 s (.scalar true s) := by
+  have hp := parsePlain_safe false s [] hs (Or.inl rfl)
+  simp only [List.append_nil] at hp
+  simp only [plainSafe, Bool.and_eq_true, bne_iff_ne, ne_eq, Bool.not_eq_true'] at hs
+  have hlen := plainLen_safe false s [] hs.1.1.2 hs.1.1.1.2 (Or.inl rfl)
+  simp only [List.append_nil] at hlen
+  obtain ⟨c, t, rfl, hc⟩ := plainFirst_head false s hs.1.1.1.1.2
+  have hpr : isPrintable c = true := by
+    have := hs.1.1.1.1.1; simp only [List.all_cons, Bool.and_eq_true] at this; exact this.1
+  have hfirst := hs.1.1.1.1.2
+  refine ⟨⟨c, t, rfl, hc.1, printable_ne_tab c hpr, plainHead_ne c hc '#' (by decide), plainHead_ne c hc '|' (by decide),
+    plainHead_ne c hc '>' (by decide), plainHead_ne c hc '&' (by decide)⟩, ?_, ?_, ?_⟩
+  · -- isDash
+    by_cases hd : c = '-'
+    · subst hd
+      simp only [plainFirstOk, beq_self_eq_true, Bool.true_or, if_true] at hfirst
+      cases t with
+      | nil => simp at hfirst
+      | cons d t' =>
+        have hd' : d ≠ ' ' := by simp only [Bool.and_eq_true, bne_iff_ne] at hfirst; exact hfirst.1
+        simp only [isDash]
+        split
+        · rename_i heq; simp at heq
+        · rename_i heq; exact absurd (List.cons.inj (List.cons.inj heq).2).1 hd'
+        · rfl
+    · simp only [isDash]
+      split
+      · rename_i heq; exact absurd (List.cons.inj heq).1 hd
+      · rename_i heq; exact absurd (List.cons.inj heq).1 hd
+      · rfl
+  · unfold splitKey
+    split
+    · rename_i heq; exact absurd (List.cons.inj heq).1 (plainHead_ne c hc '"' (by decide))
+    · rename_i heq; exact absurd (List.cons.inj heq).1 (plainHead_ne c hc '\'' (by decide))
+    · rename_i heq; exact absurd (List.cons.inj heq).1 (plainHead_ne c hc '[' (by decide))
+    · rename_i heq; exact absurd (List.cons.inj heq).1 (plainHead_ne c hc '{' (by decide))
+    · rename_i heq; exact absurd (List.cons.inj heq).1 (plainHead_ne c hc '&' (by decide))
+    · rename_i heq; exact absurd (List.cons.inj heq).1 (plainHead_ne c hc '*' (by decide))
+    · rename_i heq; exact absurd (List.cons.inj heq).1 (plainHead_ne c hc '|' (by decide))
+    · rename_i heq; exact absurd (List.cons.inj heq).1 (plainHead_ne c hc '>' (by decide))
+    · rename_i heq; exact absurd (List.cons.inj heq).1 (plainHead_ne c hc '#' (by decide))
+    · simp only [hlen, List.drop_length]
+  · unfold parseInline
+    split
+    · rename_i heq; exact absurd (List.cons.inj heq).1 (plainHead_ne c hc '"' (by decide))
+    · rename_i heq; exact absurd (List.cons.inj heq).1 (plainHead_ne c hc '\'' (by decide))
+    · rename_i heq; exact absurd (List.cons.inj heq).1 (plainHead_ne c hc '[' (by decide))
+    · rename_i heq; exact absurd (List.cons.inj heq).1 (plainHead_ne c hc '{' (by decide))
+    · rename_i heq; exact absurd (List.cons.inj heq).1 (plainHead_ne c hc '*' (by decide))
+    · simp only [hp, restOk_nil, if_true]
+
+theorem inline_sq (s : Str) (hs : s.all isPrintable = true) : Inline2 (sqText s) (.scalar false s) := by
+  have h := parseSQ_body s [] hs (by simp)
+  refine ⟨⟨'\'', _, rfl, by decide, by decide, by decide, by decide, by decide, by decide⟩, by simp [sqText, isDash], ?_, ?_⟩
+  · simp only [sqText_eq, splitKey, h]
+    simp [dropSpaces]
+  · simp only [sqText_eq, parseInline, h, restOk_nil, if_true]
+
+/-- Inline values of layer 2 with non-empty text. -/
+theorem inline2_value (x : PNode) (ctx : Ctx) (h : x.bl2 ctx = true) (hi : x.isInline2 = true) (hne : x.flow ≠ []) :
+    Inline2 x.flow x.node := by
+  cases x with
+  | seq fl st c items =>
+    cases fl with
+    | true => exact inline_coll2 _ (by simpa [PNode.bl2] using h) '[' _ rfl (Or.inl rfl)
+    | false => simp [PNode.isInline2] at hi
+  | map fl st c es =>
+    cases fl with
+    | true => exact inline_coll2 _ (by simpa [PNode.bl2] using h) '{' _ rfl (Or.inr rfl)
+    | false => simp [PNode.isInline2] at hi
+  | null v =>
+    have h4 : v % 5 ≠ 4 := by
+      intro h4; apply hne; simp [PNode.flow, nullText, h4]
+    have ht := tokOk_nullText v h4
+    obtain ⟨h1, h2, h3⟩ := inline_tok _ ht
+    exact inline2_of_facts _ _ ⟨headClass_tok _ ht, okc_tok _ ht, h1, h2, h3⟩
+  | bool b v =>
+    have ht := tokOk_boolText b v
+    obtain ⟨h1, h2, h3⟩ := inline_tok _ ht
+    exact inline2_of_facts _ _ ⟨headClass_tok _ ht, okc_tok _ ht, h1, h2, h3⟩
+  | int i v =>
+    have ht := (intText_facts i v).1
+    obtain ⟨h1, h2, h3⟩ := inline_tok _ ht
+    exact inline2_of_facts _ _ ⟨headClass_tok _ ht, okc_tok _ ht, h1, h2, h3⟩
+  | str s st =>
+    cases st with
+    | plain =>
+      have hs : plainSafe false s = true := by simp [PNode.bl2, PNode.sc2] at h; exact h.1
+      exact inline_plain s hs
+    | single =>
+      have hs : s.all isPrintable = true := by simpa [PNode.bl2, PNode.sc2] using h
+      exact inline_sq s hs
+    | double sh eu =>
+      obtain ⟨h1, h2, h3⟩ := inline_dq sh eu s
+      exact ⟨⟨'"', _, rfl, by decide, by decide, by decide, by decide, by decide, by decide⟩, h1, h2, h3⟩
+    | literal ch ind ex => simp [PNode.bl2, PNode.sc2] at h
+    | folded ch ind ex fo => simp [PNode.bl2, PNode.sc2] at h
+  | anchored a n => simp [PNode.bl2, PNode.sc2] at h
+  | alias a t => simp [PNode.bl2, PNode.sc2] at h
+
+
+/-- Minimal indentation of a child of an entry at indentation `e`. -/
+def pnOf (ctx : Ctx) (e : Nat) : Nat := if ctx = .root then 0 else e + 1
+
+/-- Lines that may follow the value of an entry at indentation `e`. -/
+def Bound (ctx : Ctx) (e : Nat) (rest : List Line) : Prop :=
+  match ctx with
+  | .root => skipFill rest = []
+  | .seq => ∀ l r, skipFill rest = l :: r → l.ind ≤ e ∧ l.txt.head? ≠ some '\t'
+  | .map => ∀ l r, skipFill rest = l :: r → l.ind ≤ e ∧ l.txt.head? ≠ some '\t' ∧ (l.ind = e → isDash l.txt = false)
+
+def BoundSeq (n : Nat) (rest : List Line) : Prop :=
+  ∀ l r, skipFill rest = l :: r → l.txt.head? ≠ some '\t' ∧ (l.ind < n ∨ (l.ind = n ∧ isDash l.txt = false))
+
+def BoundMap (n : Nat) (rest : List Line) : Prop :=
+  ∀ l r, skipFill rest = l :: r → l.txt.head? ≠ some '\t' ∧ l.ind < n
+
+mutual
+def PNode.bneed : PNode → Nat
+  | .seq false _ _ items => items.bneed + 2
+  | .map false _ _ es => es.bneed + 2
+  | _ => 2
+def PItems.bneed : PItems → Nat
+  | .nil => 1
+  | .cons _ x r => x.bneed + r.bneed + 1
+def PEntries.bneed : PEntries → Nat
+  | .nil => 1
+  | .cons _ _ _ x r => x.bneed + r.bneed + 1
+end
+
+/-- Dispatch of `parseBlock` on a block sequence's first line. -/
+theorem parseBlock_seq (f pn k : Nat) (sSame : Bool) (r1 : Str) (ls : List Line) (hr : RestShape r1)
+    (hk : pn ≤ k ∨ (k + 1 = pn ∧ sSame = true)) :
+    parseBlock (f + 1) pn sSame (⟨k, '-' :: r1⟩ :: ls) = parseSeq f k (⟨k, '-' :: r1⟩ :: ls) [] := by
+  obtain ⟨hd, hfil⟩ := seqLine_facts k r1 hr
+  rw [parseBlock]
+  simp only [skipFill, hfil, Bool.false_eq_true, if_false, List.head?_cons, show (some '-' == some '\t') = false by decide, hd]
+  rcases hk with hk | ⟨hk, hs⟩
+  · by_cases h1 : k + 1 = pn ∧ sSame = true
+    · simp [h1.1, h1.2]
+    · have : ¬ (k < pn) := by omega
+      by_cases h2 : k + 1 = pn
+      · have hs : sSame = false := by
+          cases sSame
+          · rfl
+          · exact absurd ⟨h2, rfl⟩ h1
+        simp [h2, hs, this]
+      · simp [h2, this]
+  · simp [hk, hs]
+
+/-- Dispatch of `parseBlock` on a block mapping's first line. -/
+theorem parseBlock_map (f pn k : Nat) (sSame : Bool) (key : Str) (ks : KStyle) (hkey : keyOk false key ks = true)
+    (r1 : Str) (ls : List Line) (hr : RestShape r1) (hk : pn ≤ k) :
+    parseBlock (f + 1) pn sSame (⟨k, keyText key ks ++ ':' :: r1⟩ :: ls)
+      = parseMap f k (⟨k, keyText key ks ++ ':' :: r1⟩ :: ls) [] := by
+  obtain ⟨hsp, hd, hfil, htab⟩ := keyLine_facts k key ks hkey r1 hr
+  rw [parseBlock]
+  have ht : ((keyText key ks ++ ':' :: r1).head? == some '\t') = false := by simpa using htab
+  have : ¬ (k < pn) := by omega
+  simp only [skipFill, hfil, Bool.false_eq_true, if_false, ht, hd, Bool.and_false, this, hsp]
+
+
+/-- Result of a block-level parse: the node, and a remainder that differs from `rest` at most by
+leading filler lines. -/
+def Parsed (res : R (Node × List Line)) (nd : Node) (rest : List Line) : Prop :=
+  ∃ rest', res = .ok (nd, rest') ∧ skipFill rest' = skipFill rest
+
+theorem bound_to_seq (ctx : Ctx) (e k : Nat) (rest : List Line) (h : Bound ctx e rest)
+    (hk : ctx = .root ∨ e < k ∨ (ctx = .map ∧ k = e)) : BoundSeq k rest := by
+  intro l r hl
+  cases ctx with
+  | root => simp [Bound] at h; rw [h] at hl; cases hl
+  | seq =>
+    obtain ⟨h1, h2⟩ := h l r hl
+    rcases hk with hk | hk | hk
+    · cases hk
+    · exact ⟨h2, Or.inl (by omega)⟩
+    · cases hk.1
+  | map =>
+    obtain ⟨h1, h2, h3⟩ := h l r hl
+    rcases hk with hk | hk | hk
+    · cases hk
+    · exact ⟨h2, Or.inl (by omega)⟩
+    · by_cases he : l.ind = e
+      · exact ⟨h2, Or.inr ⟨by omega, h3 he⟩⟩
+      · exact ⟨h2, Or.inl (by omega)⟩
+
+theorem bound_to_map (ctx : Ctx) (e k : Nat) (rest : List Line) (h : Bound ctx e rest)
+    (hk : ctx = .root ∨ e < k) : BoundMap k rest := by
+  intro l r hl
+  cases ctx with
+  | root => simp [Bound] at h; rw [h] at hl; cases hl
+  | seq =>
+    obtain ⟨h1, h2⟩ := h l r hl
+    rcases hk with hk | hk
+    · cases hk
+    · exact ⟨h2, by omega⟩
+  | map =>
+    obtain ⟨h1, h2, h3⟩ := h l r hl
+    rcases hk with hk | hk
+    · cases hk
+    · exact ⟨h2, by omega⟩
+
+/-- An empty value (`key:` / `-` with nothing after it and a following line that is not deeper). -/
+theorem parseAfter_empty (f col : Nat) (ctx : Ctx) (e : Nat) (rest : List Line) (hb : Bound ctx e rest) :
+    Parsed (parseAfter (f + 2) [] col (pnOf ctx e) (ctx == .seq) (ctx == .map) rest) (.scalar true []) rest := by
+  rw [parseAfter]
+  simp only [List.takeWhile_nil, List.length_nil, dropSpaces, List.dropWhile_nil, List.head?_nil, List.isEmpty_nil,
+    Bool.true_or, if_true]
+  have hnone : ((none : Option Char) == some '\t') = false := rfl
+  simp only [hnone, Bool.false_eq_true, if_false]
+  rw [parseBlock]
+  cases hs : skipFill rest with
+  | nil => exact ⟨[], rfl, by simp [skipFill, hs]⟩
+  | cons l r =>
+    have hid : skipFill (l :: r) = l :: r := by rw [← hs, skipFill_idem]
+    cases ctx with
+    | root => simp [Bound] at hb; rw [hb] at hs; cases hs
+    | seq =>
+      obtain ⟨h1, h2⟩ := hb l r hs
+      have ht : (l.txt.head? == some '\t') = false := by simpa using h2
+      have hlt : l.ind < e + 1 := by omega
+      simp only [ht, Bool.false_eq_true, if_false, pnOf, show (Ctx.seq = Ctx.root) = False by simp, if_false,
+        show (Ctx.seq == Ctx.map) = false by rfl, Bool.and_false, Bool.false_and, hlt, if_true]
+      exact ⟨l :: r, by simp, by rw [hid, hs]⟩
+    | map =>
+      obtain ⟨h1, h2, h3⟩ := hb l r hs
+      have ht : (l.txt.head? == some '\t') = false := by simpa using h2
+      have hlt : l.ind < e + 1 := by omega
+      have hnd : (decide (l.ind + 1 = e + 1) && (Ctx.map == Ctx.map) && isDash l.txt) = false := by
+        by_cases he : l.ind = e
+        · simp [h3 he]
+        · simp; intro h'; exact absurd h' he
+      simp only [ht, Bool.false_eq_true, if_false, pnOf, show (Ctx.map = Ctx.root) = False by simp, hnd, hlt, if_true]
+      exact ⟨l :: r, by simp, by rw [hid, hs]⟩
+
+
+theorem parseAfter_nil (f col pn : Nat) (cOk sSame : Bool) (ls : List Line) :
+    parseAfter (f + 1) [] col pn cOk sSame ls = parseBlock f pn sSame ls := by
+  rw [parseAfter]
+  simp only [List.takeWhile_nil, List.length_nil, dropSpaces, List.dropWhile_nil, List.head?_nil, List.isEmpty_nil,
+    Bool.true_or, if_true]
+  have hnone : ((none : Option Char) == some '\t') = false := rfl
+  simp only [hnone, Bool.false_eq_true, if_false]
+
+/-- A compact nested collection after `- `: the rest of the line becomes a virtual line. -/
+theorem parseAfter_compact (f g col pn : Nat) (sSame : Bool) (c0 : Char) (t0 : Str) (ls : List Line)
+    (hsp : c0 ≠ ' ') (htab : c0 ≠ '\t') (hhash : c0 ≠ '#') (hbar : c0 ≠ '|') (hgt : c0 ≠ '>') (hamp : c0 ≠ '&')
+    (hstruct : isDash (c0 :: t0) = true ∨ (isDash (c0 :: t0) = false ∧ ∃ kv, splitKey (c0 :: t0) = .ok (some kv))) :
+    parseAfter (f + 1) (spaces (g + 1) ++ c0 :: t0) col pn true sSame ls
+      = parseBlock f (col + (g + 1)) false (⟨col + (g + 1), c0 :: t0⟩ :: ls) := by
+  have hds : dropSpaces (spaces (g + 1) ++ c0 :: t0) = c0 :: t0 := dropSpaces_spaces (g + 1) c0 t0 hsp
+  have htw : (List.takeWhile (fun x => x == ' ') (spaces (g + 1) ++ c0 :: t0)).length = g + 1 := by
+    have : ∀ k, (List.takeWhile (fun x => x == ' ') (spaces k ++ c0 :: t0)).length = k := by
+      intro k
+      induction k with
+      | zero => simp [spaces, List.takeWhile_cons, hsp]
+      | succ k ih =>
+        have : spaces (k + 1) = ' ' :: spaces k := by simp [spaces, List.replicate_succ]
+        rw [this, List.cons_append, List.takeWhile_cons]
+        simp [ih]
+    exact this (g + 1)
+  rw [parseAfter]
+  simp only [hds, htw, List.head?_cons, show (some c0 == some '\t') = false by simp [htab],
+    Bool.false_eq_true, if_false, List.isEmpty_cons, show (some c0 == some '#') = false by simp [hhash],
+    Bool.false_and, Bool.or_self]
+  split
+  · rename_i heq; exact absurd (List.cons.inj heq).1 hbar
+  · rename_i heq; exact absurd (List.cons.inj heq).1 hgt
+  · rename_i heq; exact absurd (List.cons.inj heq).1 hamp
+  · rcases hstruct with hd | ⟨hd, kv, hk⟩
+    · simp only [hd, if_true]
+    · simp only [hd, Bool.false_eq_true, if_false, hk, if_true]
+
+theorem node_of_empty_flow (x : PNode) (ctx : Ctx) (h : x.bl2 ctx = true) (hi : x.isInline2 = true) (he : x.flow = []) :
+    x.node = .scalar true [] := by
+  cases x with
+  | null v =>
+    have : nullText v = [] := by simpa [PNode.flow] using he
+    simp [PNode.node, this]
+  | bool b v => exact absurd (by simpa [PNode.flow] using he) (tokOk_boolText b v).2.1
+  | int i v => exact absurd (by simpa [PNode.flow] using he) (intText_facts i v).1.2.1
+  | str s st =>
+    cases st with
+    | plain =>
+      have hs : plainSafe false s = true := by simp [PNode.bl2, PNode.sc2] at h; exact h.1
+      have : s = [] := by simpa [PNode.flow, strFlowText] using he
+      subst this; simp [plainSafe, plainFirstOk] at hs
+    | single => simp [PNode.flow, strFlowText, sqText] at he
+    | double sh eu => simp [PNode.flow, strFlowText, dqText] at he
+    | literal ch ind ex => simp [PNode.bl2, PNode.sc2] at h
+    | folded ch ind ex fo => simp [PNode.bl2, PNode.sc2] at h
+  | seq fl st c items => cases fl <;> simp [PNode.flow, PNode.isInline2] at he hi
+  | map fl st c es => cases fl <;> simp [PNode.flow, PNode.isInline2] at he hi
+  | anchored a n => simp [PNode.bl2, PNode.sc2] at h
+  | alias a t => simp [PNode.bl2, PNode.sc2] at h
+
+/-- Inline values (scalars, flow collections) after an indicator. -/
+theorem afterL_inline (x : PNode) (ctx : Ctx) (h : x.bl2 ctx = true) (hi : x.isInline2 = true) (e col : Nat) (m : Meta)
+    (ht : m.trail = none) (f : Nat) (rest : List Line) (hf : 2 ≤ f) (hb : Bound ctx e rest) :
+    Parsed (parseAfter f (x.valueR ctx e col m).1 col (pnOf ctx e) (ctx == .seq) (ctx == .map) ((x.valueR ctx e col m).2 ++ rest))
+      x.node rest := by
+  rw [valueR_inline x ctx h hi e col m ht]
+  obtain ⟨f', rfl⟩ : ∃ f', f = f' + 2 := ⟨f - 2, by omega⟩
+  by_cases hne : x.flow = []
+  · simp only [hne, if_true, List.nil_append]
+    rw [node_of_empty_flow x ctx h hi hne]
+    exact parseAfter_empty f' col ctx e rest hb
+  · simp only [hne, if_false, List.nil_append]
+    have := parseAfter_inline2 (f' + 1) m.gap col (pnOf ctx e) (ctx == .seq) (ctx == .map) x.flow x.node rest
+      (inline2_value x ctx h hi hne)
+    exact ⟨rest, this, rfl⟩
+
+theorem bound_after_items (r : PItems) (hr : r.bl2 = true) (n : Nat) (rest : List Line) (hb : BoundSeq n rest) :
+    Bound .seq n (r.linesR n ++ rest) := by
+  cases r with
+  | nil =>
+    intro l r' hl
+    simp only [PItems.linesR, List.nil_append] at hl
+    obtain ⟨h1, h2⟩ := hb l r' hl
+    exact ⟨by omega, h1⟩
+  | cons m x r'' =>
+    simp only [PItems.bl2, Bool.and_eq_true, List.isEmpty_iff, Option.isNone_iff_eq_none] at hr
+    obtain ⟨⟨⟨hf, ht⟩, hx⟩, _⟩ := hr
+    obtain ⟨hs, _, _⟩ := canon_value x .seq hx n (n + 1) m ht
+    obtain ⟨_, hfil⟩ := seqLine_facts n _ hs
+    intro l r' hl
+    simp only [PItems.linesR, hf, fillLines, List.map_nil, List.nil_append, List.cons_append, skipFill, hfil,
+      Bool.false_eq_true, if_false, List.cons.injEq] at hl
+    rw [← hl.1]
+    exact ⟨Nat.le_refl _, by simp⟩
+
+theorem bound_after_entries (r : PEntries) (hr : r.bl2 = true) (n : Nat) (rest : List Line) (hb : BoundMap n rest) :
+    Bound .map n (r.linesR n ++ rest) := by
+  cases r with
+  | nil =>
+    intro l r' hl
+    simp only [PEntries.linesR, List.nil_append] at hl
+    obtain ⟨h1, h2⟩ := hb l r' hl
+    exact ⟨by omega, h1, by intro he; omega⟩
+  | cons m k ks x r'' =>
+    simp only [PEntries.bl2, Bool.and_eq_true, List.isEmpty_iff, Option.isNone_iff_eq_none] at hr
+    obtain ⟨⟨⟨⟨hf, ht⟩, hk⟩, hx⟩, _⟩ := hr
+    obtain ⟨hs, _, _⟩ := canon_value x .map hx n (n + (keyText k ks).length + 1) m ht
+    obtain ⟨_, hd, hfil, htab⟩ := keyLine_facts n k ks hk _ hs
+    intro l r' hl
+    simp only [PEntries.linesR, hf, fillLines, List.map_nil, List.nil_append, List.cons_append, skipFill, hfil,
+      Bool.false_eq_true, if_false, List.cons.injEq] at hl
+    rw [← hl.1]
+    exact ⟨Nat.le_refl _, htab, fun _ => hd⟩
+
+
+mutual
+/-- A layer-2 value after its indicator. -/
+theorem afterL : (x : PNode) → ∀ (ctx : Ctx), x.bl2 ctx = true → ∀ (e col : Nat) (m : Meta), m.trail = none →
+    (e < col ∨ ctx = .root) → ∀ (f : Nat) (rest : List Line), x.bneed ≤ f → Bound ctx e rest →
+    Parsed (parseAfter f (x.valueR ctx e col m).1 col (pnOf ctx e) (ctx == .seq) (ctx == .map) ((x.valueR ctx e col m).2 ++ rest))
+      x.node rest
+  | .null v, ctx, h, e, col, m, ht, _, f, rest, hf, hb =>
+    afterL_inline _ ctx h rfl e col m ht f rest (by simpa [PNode.bneed] using hf) hb
+  | .bool b v, ctx, h, e, col, m, ht, _, f, rest, hf, hb =>
+    afterL_inline _ ctx h rfl e col m ht f rest (by simpa [PNode.bneed] using hf) hb
+  | .int i v, ctx, h, e, col, m, ht, _, f, rest, hf, hb =>
+    afterL_inline _ ctx h rfl e col m ht f rest (by simpa [PNode.bneed] using hf) hb
+  | .str s st, ctx, h, e, col, m, ht, _, f, rest, hf, hb =>
+    afterL_inline _ ctx h rfl e col m ht f rest (by simpa [PNode.bneed] using hf) hb
+  | .anchored a n, ctx, h, _, _, _, _, _, _, _, _, _ => by simp [PNode.bl2, PNode.sc2] at h
+  | .alias a t, ctx, h, _, _, _, _, _, _, _, _, _ => by simp [PNode.bl2, PNode.sc2] at h
+  | .seq true st c items, ctx, h, e, col, m, ht, _, f, rest, hf, hb =>
+    afterL_inline _ ctx h rfl e col m ht f rest (by simpa [PNode.bneed] using hf) hb
+  | .map true st c es, ctx, h, e, col, m, ht, _, f, rest, hf, hb =>
+    afterL_inline _ ctx h rfl e col m ht f rest (by simpa [PNode.bneed] using hf) hb
+  | .seq false st c items, ctx, h, e, col, m, ht, hcol, f, rest, hf, hb => by
+    simp only [PNode.bl2, Bool.and_eq_true, Bool.not_eq_true'] at h
+    obtain ⟨⟨hnil, hi⟩, hc⟩ := h
+    cases items with
+    | nil => simp [PItems.isNil] at hnil
+    | cons m' x r =>
+      have hi' := hi
+      simp only [PItems.bl2, Bool.and_eq_true, List.isEmpty_iff, Option.isNone_iff_eq_none] at hi'
+      obtain ⟨⟨⟨hfl, htr⟩, hx⟩, hr⟩ := hi'
+      obtain ⟨f', rfl⟩ : ∃ f', f = f' + 2 := ⟨f - 2, by simp [PNode.bneed] at hf; omega⟩
+      have hf' : (PItems.cons m' x r).bneed ≤ f' := by simp [PNode.bneed] at hf; omega
+      cases c with
+      | false =>
+        -- entries on the following lines, at indentation k
+        have hk : (ctx == .root || decide (1 ≤ st) || (ctx == .map && st == 0)) = true := by simpa using hc
+        simp only [PNode.valueR, Bool.false_eq_true, if_false, ht, trailText, PNode.node]
+        rw [parseAfter_nil]
+        obtain ⟨hs, _, _⟩ := canon_value x .seq hx (if ctx = .root then 0 else e + st) ((if ctx = .root then 0 else e + st) + 1) m' htr
+        simp only [PItems.linesR, hfl, fillLines, List.map_nil, List.nil_append, List.cons_append]
+        have hdisp := parseBlock_seq f' (pnOf ctx e) (if ctx = .root then 0 else e + st) (ctx == .map) _
+          ((x.valueR .seq (if ctx = .root then 0 else e + st) ((if ctx = .root then 0 else e + st) + 1) m').2 ++
+            r.linesR (if ctx = .root then 0 else e + st) ++ rest) hs (by
+            cases ctx with
+            | root => left; simp [pnOf]
+            | seq =>
+              have : 1 ≤ st := by simpa using hk
+              left; simp [pnOf]; omega
+            | map =>
+              by_cases h1 : 1 ≤ st
+              · left; simp [pnOf]; omega
+              · have : st = 0 := by omega
+                right; simp [pnOf, this])
+        simp only [List.append_assoc] at hdisp ⊢
+        rw [hdisp]
+        have hbs : BoundSeq (if ctx = .root then 0 else e + st) rest := by
+          apply bound_to_seq ctx e _ rest hb
+          cases ctx with
+          | root => exact Or.inl rfl
+          | seq =>
+            have : 1 ≤ st := by simpa using hk
+            right; left; simp; omega
+          | map =>
+            by_cases h1 : 1 ≤ st
+            · right; left; simp; omega
+            · have : st = 0 := by omega
+              right; right; simp [this]
+        have := seqL (.cons m' x r) hi (if ctx = .root then 0 else e + st) f' rest [] hf' hbs
+        simp only [PItems.linesR, hfl, fillLines, List.map_nil, List.nil_append, List.cons_append, List.append_assoc,
+          List.reverse_nil] at this
+        exact this
+      | true =>
+        have hctx : ctx = .seq := by simpa using hc
+        subst hctx
+        have hcol' : e < col := by
+          rcases hcol with h' | h'
+          · exact h'
+          · cases h'
+        obtain ⟨hs, _, _⟩ := canon_value x .seq hx (col + m.gap + 1) (col + m.gap + 1 + 1) m' htr
+        simp only [PNode.valueR, if_true, PItems.linesR, hfl, fillLines, List.map_nil, List.nil_append, List.cons_append,
+          PNode.node]
+        have hd := (seqLine_facts (col + m.gap + 1) _ hs).1
+        have hpc := parseAfter_compact (f' + 1) m.gap col (pnOf .seq e) (Ctx.seq == Ctx.map) '-' _ 
+          ((x.valueR .seq (col + m.gap + 1) (col + m.gap + 1 + 1) m').2 ++ r.linesR (col + m.gap + 1) ++ rest)
+          (by decide) (by decide) (by decide) (by decide) (by decide) (by decide) (Or.inl hd)
+        simp only [show (Ctx.seq == Ctx.seq) = true by rfl, List.append_assoc] at hpc ⊢
+        rw [hpc]
+        have hdisp := parseBlock_seq f' (col + (m.gap + 1)) (col + (m.gap + 1)) false _
+          ((x.valueR .seq (col + m.gap + 1) (col + m.gap + 1 + 1) m').2 ++ (r.linesR (col + m.gap + 1) ++ rest)) hs
+          (Or.inl (Nat.le_refl _))
+        have e1 : col + (m.gap + 1) = col + m.gap + 1 := by omega
+        rw [e1] at hdisp ⊢
+        rw [hdisp]
+        have hbs : BoundSeq (col + m.gap + 1) rest :=
+          bound_to_seq .seq e _ rest hb (Or.inr (Or.inl (by omega)))
+        have := seqL (.cons m' x r) hi (col + m.gap + 1) f' rest [] hf' hbs
+        simp only [PItems.linesR, hfl, fillLines, List.map_nil, List.nil_append, List.cons_append, List.append_assoc,
+          List.reverse_nil] at this
+        exact this
+  | .map false st c es, ctx, h, e, col, m, ht, hcol, f, rest, hf, hb => by
+    simp only [PNode.bl2, Bool.and_eq_true, Bool.not_eq_true'] at h
+    obtain ⟨⟨hnil, hi⟩, hc⟩ := h
+    cases es with
+    | nil => simp [PEntries.isNil] at hnil
+    | cons m' k ks x r =>
+      have hi' := hi
+      simp only [PEntries.bl2, Bool.and_eq_true, List.isEmpty_iff, Option.isNone_iff_eq_none] at hi'
+      obtain ⟨⟨⟨⟨hfl, htr⟩, hkey⟩, hx⟩, hr⟩ := hi'
+      obtain ⟨f', rfl⟩ : ∃ f', f = f' + 2 := ⟨f - 2, by simp [PNode.bneed] at hf; omega⟩
+      have hf' : (PEntries.cons m' k ks x r).bneed ≤ f' := by simp [PNode.bneed] at hf; omega
+      cases c with
+      | false =>
+        have hk : (ctx == .root || decide (1 ≤ st)) = true := by simpa using hc
+        simp only [PNode.valueR, Bool.false_eq_true, if_false, ht, trailText, PNode.node]
+        rw [parseAfter_nil]
+        obtain ⟨hs, _, _⟩ := canon_value x .map hx (if ctx = .root then 0 else e + st)
+          ((if ctx = .root then 0 else e + st) + (keyText k ks).length + 1) m' htr
+        simp only [PEntries.linesR, hfl, fillLines, List.map_nil, List.nil_append, List.cons_append]
+        have hdisp := parseBlock_map f' (pnOf ctx e) (if ctx = .root then 0 else e + st) (ctx == .map) k ks hkey _
+          ((x.valueR .map (if ctx = .root then 0 else e + st) ((if ctx = .root then 0 else e + st) + (keyText k ks).length + 1) m').2 ++
+            r.linesR (if ctx = .root then 0 else e + st) ++ rest) hs (by
+            cases ctx with
+            | root => simp [pnOf]
+            | seq => have : 1 ≤ st := by simpa using hk
+                     simp [pnOf]; omega
+            | map => have : 1 ≤ st := by simpa using hk
+                     simp [pnOf]; omega)
+        simp only [List.append_assoc] at hdisp ⊢
+        rw [hdisp]
+        have hbm : BoundMap (if ctx = .root then 0 else e + st) rest := by
+          apply bound_to_map ctx e _ rest hb
+          cases ctx with
+          | root => exact Or.inl rfl
+          | seq => have : 1 ≤ st := by simpa using hk
+                   right; simp; omega
+          | map => have : 1 ≤ st := by simpa using hk
+                   right; simp; omega
+        have := mapL (.cons m' k ks x r) hi (if ctx = .root then 0 else e + st) f' rest [] hf' hbm
+        simp only [PEntries.linesR, hfl, fillLines, List.map_nil, List.nil_append, List.cons_append, List.append_assoc,
+          List.reverse_nil] at this
+        exact this
+      | true =>
+        have hctx : ctx = .seq := by simpa using hc
+        subst hctx
+        have hcol' : e < col := by
+          rcases hcol with h' | h'
+          · exact h'
+          · cases h'
+        obtain ⟨hs, _, _⟩ := canon_value x .map hx (col + m.gap + 1) (col + m.gap + 1 + (keyText k ks).length + 1) m' htr
+        obtain ⟨hsplit, hd, _, _⟩ := keyLine_facts (col + m.gap + 1) k ks hkey _ hs
+        obtain ⟨c0, t0, hkt, q1, q2, q3, _, _, q6, _, q8, q9, _⟩ := keyHead_facts k ks hkey
+        simp only [PNode.valueR, if_true, PEntries.linesR, hfl, fillLines, List.map_nil, List.nil_append, List.cons_append,
+          PNode.node]
+        rw [hkt] at hsplit hd ⊢
+        simp only [List.cons_append] at hsplit hd ⊢
+        have hpc := parseAfter_compact (f' + 1) m.gap col (pnOf .seq e) (Ctx.seq == Ctx.map) c0 _
+          ((x.valueR .map (col + m.gap + 1) (col + m.gap + 1 + (c0 :: t0).length + 1) m').2 ++ r.linesR (col + m.gap + 1) ++ rest)
+          q1 q3 q2 q8 q9 q6 (Or.inr ⟨hd, _, hsplit⟩)
+        simp only [show (Ctx.seq == Ctx.seq) = true by rfl, List.append_assoc] at hpc ⊢
+        rw [hpc]
+        have hdisp := parseBlock_map f' (col + (m.gap + 1)) (col + (m.gap + 1)) false k ks hkey _
+          ((x.valueR .map (col + m.gap + 1) (col + m.gap + 1 + (keyText k ks).length + 1) m').2 ++ (r.linesR (col + m.gap + 1) ++ rest)) hs
+          (Nat.le_refl _)
+        have e1 : col + (m.gap + 1) = col + m.gap + 1 := by omega
+        rw [e1, hkt] at hdisp
+        simp only [List.cons_append] at hdisp
+        rw [e1, hdisp]
+        have hbm : BoundMap (col + m.gap + 1) rest := bound_to_map .seq e _ rest hb (Or.inr (by omega))
+        have := mapL (.cons m' k ks x r) hi (col + m.gap + 1) f' rest [] hf' hbm
+        simp only [PEntries.linesR, hfl, fillLines, List.map_nil, List.nil_append, List.cons_append, List.append_assoc,
+          List.reverse_nil, hkt] at this
+        exact this
+/-- The entries of a block sequence at indentation `n`. -/
+theorem seqL : (items : PItems) → items.bl2 = true → ∀ (n f : Nat) (rest : List Line) (acc : List Node), items.bneed ≤ f →
+    BoundSeq n rest → Parsed (parseSeq f n (items.linesR n ++ rest) acc) (.seq (acc.reverse ++ items.nodes)) rest
+  | .nil, _, n, f, rest, acc, hf, hb => by
+    obtain ⟨f', rfl⟩ : ∃ f', f = f' + 1 := ⟨f - 1, by simp [PItems.bneed] at hf; omega⟩
+    simp only [PItems.linesR, List.nil_append, PItems.nodes, List.append_nil]
+    rw [parseSeq]
+    cases hs : skipFill rest with
+    | nil => exact ⟨[], rfl, by simp [skipFill, hs]⟩
+    | cons l r =>
+      have hid : skipFill (l :: r) = l :: r := by rw [← hs, skipFill_idem]
+      obtain ⟨h1, h2⟩ := hb l r hs
+      rcases h2 with h2 | ⟨h2, h3⟩
+      · simp only [h2, if_true]
+        exact ⟨l :: r, rfl, by rw [hid, hs]⟩
+      · have ht : (l.txt.head? == some '\t') = false := by simpa using h1
+        simp only [h2, Nat.lt_irrefl, if_false, h3, Bool.not_false, if_true, ht, Bool.false_eq_true]
+        exact ⟨l :: r, rfl, by rw [hid, hs]⟩
+  | .cons m x r, h, n, f, rest, acc, hf, hb => by
+    have h' := h
+    simp only [PItems.bl2, Bool.and_eq_true, List.isEmpty_iff, Option.isNone_iff_eq_none] at h'
+    obtain ⟨⟨⟨hfl, htr⟩, hx⟩, hr⟩ := h'
+    obtain ⟨f', rfl⟩ : ∃ f', f = f' + 1 := ⟨f - 1, by simp [PItems.bneed] at hf; omega⟩
+    have hfx : x.bneed ≤ f' := by simp [PItems.bneed] at hf; omega
+    have hfr : r.bneed ≤ f' := by simp [PItems.bneed] at hf; omega
+    obtain ⟨hs, _, _⟩ := canon_value x .seq hx n (n + 1) m htr
+    obtain ⟨hd, hfil⟩ := seqLine_facts n _ hs
+    simp only [PItems.linesR, hfl, fillLines, List.map_nil, List.nil_append, List.cons_append, List.append_assoc, PItems.nodes]
+    rw [parseSeq]
+    simp only [skipFill, hfil, Bool.false_eq_true, if_false, Nat.lt_irrefl, hd, Bool.not_true, List.drop_one, List.tail_cons]
+    obtain ⟨rest', hpa, hsk⟩ := afterL x .seq hx n (n + 1) m htr (Or.inl (Nat.lt_succ_self n)) f'
+      (r.linesR n ++ rest) hfx (bound_after_items r hr n rest hb)
+    simp only [pnOf, show (Ctx.seq = Ctx.root) = False by simp, if_false, show (Ctx.seq == Ctx.seq) = true by rfl,
+      show (Ctx.seq == Ctx.map) = false by rfl] at hpa
+    rw [hpa]
+    simp only
+    rw [parseSeq_congr f' n rest' (r.linesR n ++ rest) (x.node :: acc) hsk]
+    have := seqL r hr n f' rest (x.node :: acc) hfr hb
+    simpa [List.reverse_cons, List.append_assoc] using this
+/-- The entries of a block mapping at indentation `n`. -/
+theorem mapL : (es : PEntries) → es.bl2 = true → ∀ (n f : Nat) (rest : List Line) (acc : List (Node × Node)), es.bneed ≤ f →
+    BoundMap n rest → Parsed (parseMap f n (es.linesR n ++ rest) acc) (.map (acc.reverse ++ es.nodes)) rest
+  | .nil, _, n, f, rest, acc, hf, hb => by
+    obtain ⟨f', rfl⟩ : ∃ f', f = f' + 1 := ⟨f - 1, by simp [PEntries.bneed] at hf; omega⟩
+    simp only [PEntries.linesR, List.nil_append, PEntries.nodes, List.append_nil]
+    rw [parseMap]
+    cases hs : skipFill rest with
+    | nil => exact ⟨[], rfl, by simp [skipFill, hs]⟩
+    | cons l r =>
+      have hid : skipFill (l :: r) = l :: r := by rw [← hs, skipFill_idem]
+      obtain ⟨h1, h2⟩ := hb l r hs
+      simp only [h2, if_true]
+      exact ⟨l :: r, rfl, by rw [hid, hs]⟩
+  | .cons m k ks x r, h, n, f, rest, acc, hf, hb => by
+    have h' := h
+    simp only [PEntries.bl2, Bool.and_eq_true, List.isEmpty_iff, Option.isNone_iff_eq_none] at h'
+    obtain ⟨⟨⟨⟨hfl, htr⟩, hkey⟩, hx⟩, hr⟩ := h'
+    obtain ⟨f', rfl⟩ : ∃ f', f = f' + 1 := ⟨f - 1, by simp [PEntries.bneed] at hf; omega⟩
+    have hfx : x.bneed ≤ f' := by simp [PEntries.bneed] at hf; omega
+    have hfr : r.bneed ≤ f' := by simp [PEntries.bneed] at hf; omega
+    obtain ⟨hs, _, _⟩ := canon_value x .map hx n (n + (keyText k ks).length + 1) m htr
+    obtain ⟨hsplit, hd, hfil, htab⟩ := keyLine_facts n k ks hkey _ hs
+    simp only [PEntries.linesR, hfl, fillLines, List.map_nil, List.nil_append, List.cons_append, List.append_assoc, PEntries.nodes]
+    rw [parseMap]
+    simp only [skipFill, hfil, Bool.false_eq_true, if_false, Nat.lt_irrefl, hsplit]
+    have hcol : n + ((keyText k ks ++ ':' :: (x.valueR .map n (n + (keyText k ks).length + 1) m).1).length
+        - (x.valueR .map n (n + (keyText k ks).length + 1) m).1.length) = n + (keyText k ks).length + 1 := by
+      simp only [List.length_append, List.length_cons]; omega
+    rw [hcol]
+    obtain ⟨rest', hpa, hsk⟩ := afterL x .map hx n (n + (keyText k ks).length + 1) m htr (Or.inl (by omega)) f'
+      (r.linesR n ++ rest) hfx (bound_after_entries r hr n rest hb)
+    simp only [pnOf, show (Ctx.map = Ctx.root) = False by simp, if_false, show (Ctx.map == Ctx.seq) = false by rfl,
+      show (Ctx.map == Ctx.map) = true by rfl] at hpa
+    rw [hpa]
+    simp only
+    rw [parseMap_congr f' n rest' (r.linesR n ++ rest) ((keyNode k ks, x.node) :: acc) hsk]
+    have := mapL r hr n f' rest ((keyNode k ks, x.node) :: acc) hfr hb
+    simpa [List.reverse_cons, List.append_assoc] using this
+end
+
+
 end SV.YamlRef
